@@ -654,6 +654,10 @@ impl Mon {
                     continue;
                 }
             };
+            if ra.dust {
+                self.r.count("C06.dust_bank_accruals_not_judged");
+                continue;
+            }
             self.r.eval();
             let informative = ra.active && dt > 0;
             if informative {
